@@ -163,6 +163,29 @@ def replay(path):
     kind = rp.get("kind")
     still = None
     out = ""
+    if str(kind).startswith("base-"):
+        # the Go library now against the concrete Coq function now
+        rc, out, _ = vlib.run_harness(hbin, ["c14-replay", "base", str(rp["which"]), rp["input_hex"]])
+        print("library now: " + out.strip())
+        m = re.search(r"ok=(\w+) result=([0-9a-f]*)", out)
+        exp = "None" if not m or m.group(1) != "true" else ('(Some (hx "%s"))' % m.group(2) if m.group(2) else "(Some (@nil N))")
+        inp = '(hx "%s")' % rp["input_hex"] if rp["input_hex"] else "(@nil N)"
+        vlib.coq_build()
+        r = _coq_eval("check_base (%d, %s, %s)" % (rp["which"], inp, exp), os.path.join(vlib.WORK, "C14", "replay"))
+        print("Coq function = library answer: %s" % r)
+        print(json.dumps({k: v for k, v in rp.items() if k != "coq"}, indent=1)[:1500])
+        if r != "true":
+            print("=> still reproduces"); return 1
+        print("=> does not reproduce on this tree"); return 0
+    if kind == "signer-parse":
+        rc, out, _ = vlib.run_harness(hbin, ["c14-replay", "signer-parse", str(rp["alg"]), rp["string_hex"]])
+        print("implementation now: " + out.strip())
+        print("recorded: ok=%s (%s)" % (rp.get("ok"), rp.get("what")))
+        now_ok = "Parse: ok" in out
+        print(json.dumps({k: v for k, v in rp.items() if k != "coq"}, indent=1)[:1500])
+        if now_ok == bool(rp.get("ok")):
+            print("=> still reproduces (same answer as recorded)"); return 1
+        print("=> does not reproduce on this tree"); return 0
     if "string_hex" in rp:
         rc, out, _ = vlib.run_harness(hbin, ["c14-replay", "did-parse", rp["string_hex"]])
         kind = kind or "did-parse"
